@@ -183,7 +183,13 @@ func (d *Decoder) decodeSet(mem MemCache, msg *Message) error {
 	// (RFC 7011 section 3.3.1); for template sets a record needs more than 4 bytes
 	minLen := uint16(5)
 	if setHeader.SetID > 255 && err == nil {
-		minLen = tr.minRecordLen()
+		if minLen = tr.minRecordLen(); minLen == 0 {
+			// decoding empty records would never advance
+			err = nonfatalError{fmt.Errorf("%s ipfix template id# %d describes empty records",
+				d.raddr.String(),
+				setHeader.SetID,
+			)}
+		}
 	}
 	for err == nil && setHeader.Length > uint16(d.reader.ReadCount()-startCount) && d.reader.Len() >= int(minLen) && setHeader.Length-uint16(d.reader.ReadCount()-startCount) >= minLen {
 		if setID := setHeader.SetID; setID == 2 || setID == 3 {
